@@ -61,3 +61,29 @@ struct DirectReductions
     Eigen::VectorXd c() { return V.adjoint() * f; }
 };
 }  // namespace SpectraControl
+
+// positive controls for the zero-count data-flow rules added in session 3
+namespace SpectraControl {
+struct AliasedNoalias
+{
+    Eigen::MatrixXd P;
+    void restart(const Eigen::MatrixXd& S) { P.noalias() = P * S; }                 // destination is a product factor
+    void fine(const Eigen::MatrixXd& S, const Eigen::MatrixXd& Q) { P.noalias() = Q * S; }
+};
+inline double advance(long& seed) { seed = seed * 3 + 1; return double(seed); }
+struct Pair { double a, b; Pair(double x, double y) : a(x), b(y) {} };
+inline Pair unsequenced_draws(long& seed) { return Pair(advance(seed), advance(seed)); }   // two modifying operands of one call
+inline double stale_buffer(const Eigen::MatrixXd& A, int n)
+{
+    Eigen::VectorXd buf(A.rows());
+    buf.setZero();
+    double s = 0;
+    for (int i = 0; i < n; i++)
+    {
+        if (i % 2 == 0)
+            buf.noalias() = A.col(i);        // refreshed on some paths only
+        s += buf.sum();                      // may read the previous iteration's value
+    }
+    return s;
+}
+}  // namespace SpectraControl
